@@ -156,7 +156,8 @@ impl ExpectationMaker {
                     .filter_map(|m| m.map(|v| v.as_str()))
                     .collect::<Vec<_>>()
             });
-        if captures.len() == 1 {
+        if captures.len() == 1 || (captures.len() == 2 && captures[1].is_empty()) {
+            // no modifier, or empty parentheses (`foo ()`), which are not a modifier
             Ok((line.to_string(), "equal".to_string(), "".to_string()))
         } else if captures.len() == 2 {
             Ok((
